@@ -608,6 +608,12 @@ static Op gen_line(sim_rng &r, unsigned longw) {
         else if (kind == 2) { op.s = rnd_ascii(r, n / 2) + "@" + rnd_ascii(r, n - n / 2 - (n ? 1 : 0)); }
         else { op.s = rnd_ascii(r, n); for (size_t i = 0; i < op.s.size(); i += 7 + sim_below(&r, 50)) op.s[i] = (char)(1 + sim_below(&r, 31)); }
     }
+    // invisible / signature characters in front of an otherwise ordinary line (U+FEFF byte order mark, NBSP, ZWSP, U+2028):
+    // all well-formed UTF-8 without control characters, so the echo must be exact and the verdict the library's
+    if (sim_below(&r, 100) < 6) {
+        static const char *pre[] = { "\xef\xbb\xbf", "\xc2\xa0", "\xe2\x80\x8b", "\xe2\x80\xa8", "\xef\xbb\xbf ", " \xef\xbb\xbf", "\xef\xbf\xbe" };
+        op.s = string(pre[sim_below(&r, 7)]) + op.s;
+    }
     unsigned t = (unsigned)sim_below(&r, 100);
     op.t = t < 70 ? 0 : 1;
     return op;
